@@ -245,8 +245,8 @@ pub fn compare_le(first: &PathAwareValue, other: &PathAwareValue) -> (res: Resul
 {
     match compare_values(first, other) {
         Ok(o) => match o {
-            Ordering::Greater | Ordering::Equal => Ok(false),
-            Ordering::Less => Ok(true),
+            Ordering::Greater => Ok(false),
+            Ordering::Equal | Ordering::Less => Ok(true),
         },
         Err(e) => Err(e),
     }
@@ -298,6 +298,11 @@ impl PathAwareValue {
             (PathAwareValue::List((_, list)), PathAwareValue::List((_, list2))) => verif_eq(list, list2),
 
             (PathAwareValue::Bool((_, b1)), PathAwareValue::Bool((_, b2))) => b1 == b2,
+
+            
+            (PathAwareValue::Float((_, f1)), PathAwareValue::Float((_, f2))) => {
+                (f1 - f2).abs() < f64::EPSILON
+            }
 
             (PathAwareValue::String((_, s)), PathAwareValue::Regex((_, r))) => {
                 if let Ok(regex) = Regex::new(r.as_str()) {
